@@ -272,8 +272,9 @@ func gSupport() map[string]GT {
 		"L": gArr(gStr()),
 		"M": gMap(gInt()),
 		"R": gRef("S"),
-		// LA: an array of aliased scalars (Tags: [...Tag], Tag: string)
+		// LA: an array of aliased scalars (Tags: [...Tag], Tag: string); MA: a map of them
 		"LA": gArr(gRef("A")),
+		"MA": gMap(gRef("A")),
 	}
 }
 
@@ -338,10 +339,25 @@ func gPositions() []gPos {
 // special shapes. thorough adds two-reference combinations.
 func GSchemas(thorough bool) []GSchema {
 	var out []GSchema
-	targets := []string{"S", "E", "A", "K", "L", "M", "R", "LA"}
+	targets := []string{"S", "E", "A", "K", "L", "M", "R", "LA", "MA"}
 	for _, p := range gPositions() {
 		for _, t := range targets {
 			out = append(out, withSupport(p.name+"/"+t, p.mk(gRef(t))...))
+			// the same use made by several objects: two walked before the
+			// support objects (in document order and in alphabetical order)
+			// and one after them
+			users := p.mk(gRef(t))
+			first := users[0]
+			for _, n := range []string{"Aa1", "Aa2"} {
+				u := first
+				u.Name = n
+				users = append(users, u)
+			}
+			multi := withSupport("users/"+p.name+"/"+t, users...)
+			last := first
+			last.Name = "Zz1"
+			multi.Objs = append(multi.Objs, last)
+			out = append(out, multi)
 		}
 	}
 	root := func(t GT) GObj { return GObj{Name: "Root", T: t} }
